@@ -100,12 +100,23 @@ impl<T: Write + Seek> ShapeWriter<T> {
     /// # }
     /// ```
     pub fn write_shape<S: EsriShape>(&mut self, shape: &S) -> Result<(), Error> {
+        let result = self.append_shape(shape);
+        if let Err(Error::IoError(_)) = result {
+            // Part of the record or of its index entry may have been written:
+            // the next write goes back behind the last complete record
+            self.repositioning_needed = true;
+        }
+        result
+    }
+
+    fn append_shape<S: EsriShape>(&mut self, shape: &S) -> Result<(), Error> {
         match (self.header.shape_type, S::shapetype()) {
             // This is the first call to write shape, we shall write the header
             // to reserve it space in the file.
             (ShapeType::NullShape, t) => {
-                self.header.shape_type = t;
-                self.header.bbox = BBoxZ {
+                let mut header = self.header;
+                header.shape_type = t;
+                header.bbox = BBoxZ {
                     max: PointZ::new(
                         f64::NEG_INFINITY,
                         f64::NEG_INFINITY,
@@ -117,11 +128,13 @@ impl<T: Write + Seek> ShapeWriter<T> {
                 // finalize() may already have been called (and have written an
                 // empty header): the header always lives at the start
                 self.shp_dest.seek(SeekFrom::Start(0))?;
-                self.header.write_to(&mut self.shp_dest)?;
+                header.write_to(&mut self.shp_dest)?;
                 if let Some(shx_dest) = &mut self.shx_dest {
                     shx_dest.seek(SeekFrom::Start(0))?;
-                    self.header.write_to(shx_dest)?;
+                    header.write_to(shx_dest)?;
                 }
+                // the file has its type once the space of its header is reserved
+                self.header = header;
             }
             (t1, t2) if t1 != t2 => {
                 return Err(Error::MismatchShapeType {
